@@ -208,7 +208,7 @@ def generate(seed, tier):
     for c in range(nops):
         lid, n, wf = r.choice(lists)
         e = r.choice(evs)
-        what = r.choices(["tagged", "orig"], weights=[70, 30])[0]
+        what = r.choices(["tagged", "orig", "tagged2"], weights=[60, 25, 15])[0]
         fault = None
         if fault_run and r.random() < 0.3:
             fault = {"kind": "env_raise", "site": "env:" + r.choice(["f", "g", "h"]),
@@ -368,6 +368,15 @@ def execute(scenario, open_sigs):
             if was:
                 sys.setprofile(None)
             L["tagged"] = tag_common_subexpressions(L["orig"])
+            # the histogram-based tagger (pymbolic.mapper.cse_tagger): exact-tree repeats only,
+            # so it is held to value preservation, once-per-wrapper and -- on wrapper-free
+            # inputs -- no wrapper around a wrapper, not to the work-sharing bound
+            from pymbolic.mapper.cse_tagger import CSETagMapper, CSEWalkMapper
+            walk = CSEWalkMapper()
+            for o in L["orig"]:
+                walk(o)
+            tm = CSETagMapper(walk)
+            L["tagged2"] = [tm(o) for o in L["orig"]]
             if was:
                 sys.setprofile(obs._prof)
             check_tagged_structure(L)
@@ -394,6 +403,11 @@ def execute(scenario, open_sigs):
         # not *create* such a pair where the input had none
         if not L["wf"] and any(nested_pairs(c) for c in L["canon"]):
             return
+        if L["wf"]:
+            for i, t in enumerate(L.get("tagged2") or []):
+                if nested_pairs(canon(t)):
+                    viol("C12/wrapper-around-wrapper", {"list": L["lid"], "index": i,
+                                                        "tagger": "cse_tagger"})
         for i, t in enumerate(L["tagged"]):
             bad = []
 
@@ -557,11 +571,11 @@ def execute(scenario, open_sigs):
                     continue
                 i = i % len(L["orig"])
                 e = get_ev(desc)
-                if what == "tagged":
+                if what in ("tagged", "tagged2"):
                     ensure_tagged(L)
                     if violation is not None:
                         break
-                    expr = L["tagged"][i]
+                    expr = L[what][i]
                 else:
                     expr = L["orig"][i]
                 got, comps = do_eval(e, expr, desc, L["orig"][i], fault, [what, lid, i])
